@@ -12,7 +12,7 @@ extern pthread_rwlock_t bidib_trains_rwlock, bidib_boards_rwlock;
 extern pthread_mutex_t trackstate_accessories_mutex, trackstate_peripherals_mutex, trackstate_segments_mutex,
 	trackstate_reversers_mutex, trackstate_trains_mutex, trackstate_boosters_mutex, trackstate_track_outputs_mutex,
 	bidib_node_state_table_mutex, bidib_send_buffer_mutex, bidib_uplink_queue_mutex, bidib_uplink_error_queue_mutex,
-	bidib_uplink_intern_queue_mutex, bidib_action_id_mutex;
+	bidib_uplink_intern_queue_mutex, bidib_action_id_mutex, bidib_send_order_mutex __attribute__((weak));
 
 void hx_hash_init(hx_hash_t *h) { h->a = 1469598103934665603ull; h->b = 0x9E3779B97F4A7C15ull; }
 void hx_hash_add(hx_hash_t *h, const void *p, size_t n) {
@@ -47,6 +47,7 @@ void hx_child_begin(const vs_dev_t *devs, int ndevs, int record_trace, void *(*e
 	NAME(trackstate_track_outputs_mutex); NAME(bidib_node_state_table_mutex); NAME(bidib_send_buffer_mutex);
 	NAME(bidib_uplink_queue_mutex); NAME(bidib_uplink_error_queue_mutex); NAME(bidib_uplink_intern_queue_mutex);
 	NAME(bidib_action_id_mutex);
+	if (&bidib_send_order_mutex) NAME(bidib_send_order_mutex);
 }
 int hx_start_debug(unsigned flush) {
 	bidib_set_lowlevel_debug_mode(1);
